@@ -1,0 +1,223 @@
+//go:build verif
+
+// Contracts for the verification machinery in /verif (comment only; compiled
+// only with -tags verif and then adds nothing to the package).
+package kcache
+
+/*@ theory cache
+;; theory obj
+;; uses kcache.cacheKey kcache.cacheEntry kcache.event
+(define-sort Key () |S!kcache.cacheKey|)
+(define-sort Entry () |S!kcache.cacheEntry|)
+(define-fun keyOf ((o V)) Key (|mk!kcache.cacheKey| (obj-ns o) (obj-name o)))
+(define-fun ever ((e Entry)) Int (|kcache.cacheEntry.version| e))
+(define-fun eobj ((e Entry)) V (|kcache.cacheEntry.object| e))
+(define-fun entryOf ((o V)) Entry (|mk!kcache.cacheEntry| (atoi (obj-rv o)) o))
+; representation invariant of one cache entry stored under key k
+(define-fun wfEntry ((k Key) (e Entry)) Bool
+  (and (not (= (eobj e) vnil)) (= (keyOf (eobj e)) k) (isnum (obj-rv (eobj e))) (= (atoi (obj-rv (eobj e))) (ever e))))
+(define-fun WFitems ((d (Array Key Bool)) (v (Array Key Entry))) Bool
+  (forall ((k Key)) (=> (select d k) (wfEntry k (select v k)))))
+(define-fun AllAccepted ((f V) (d (Array Key Bool)) (v (Array Key Entry))) Bool
+  (forall ((k Key)) (=> (select d k) (accept f (eobj (select v k))))))
+; equality of abstract views (values matter only where present)
+(define-fun sameView ((d1 (Array Key Bool)) (v1 (Array Key Entry)) (d2 (Array Key Bool)) (v2 (Array Key Entry))) Bool
+  (forall ((k Key)) (and (= (select d1 k) (select d2 k)) (=> (select d1 k) (= (select v1 k) (select v2 k))))))
+; C02: an event is well-formed for a view: Create only for an absent key, Update only for a present
+; key with a strictly newer version, Delete only for a present key
+(define-fun evWF ((d (Array Key Bool)) (v (Array Key Entry)) (e V)) Bool
+  (let ((k (keyOf (evt-res e))))
+   (ite (= (evt-type e) |str!create|) (not (select d k))
+   (ite (= (evt-type e) |str!update|) (and (select d k) (< (ever (select v k)) (atoi (obj-rv (evt-res e)))))
+        (and (= (evt-type e) |str!delete|) (select d k))))))
+(define-fun evApplyD ((d (Array Key Bool)) (e V)) (Array Key Bool)
+  (store d (keyOf (evt-res e)) (not (= (evt-type e) |str!delete|))))
+(define-fun evApplyV ((v (Array Key Entry)) (e V)) (Array Key Entry)
+  (store v (keyOf (evt-res e)) (entryOf (evt-res e))))
+; C01 reference semantics of one watch event (written from the property statement):
+; presence of the event's key afterwards
+(define-fun refUpdDom ((p Bool) (cur Entry) (f V) (e V)) Bool
+  (let ((o (evt-res e)))
+   (ite (not (isnum (obj-rv o))) p
+   (ite (= (evt-type e) |str!delete|) false
+   (ite (not p) (accept f o)
+   (ite (> (atoi (obj-rv o)) (ever cur)) (accept f o) true))))))
+; entry stored for the key afterwards (meaningful when present)
+(define-fun refUpdVal ((p Bool) (cur Entry) (f V) (e V)) Entry
+  (let ((o (evt-res e)))
+   (ite (and (isnum (obj-rv o)) (not (= (evt-type e) |str!delete|)) (accept f o) (or (not p) (> (atoi (obj-rv o)) (ever cur))))
+        (entryOf o) cur)))
+@*/
+
+/*@ theory events
+;; theory obj
+;; uses kcache.event
+(declare-fun |box!kcache.event| (|S!kcache.event|) V)
+(declare-fun |unbox!kcache.event| (V) |S!kcache.event|)
+(assert (forall ((e |S!kcache.event|)) (! (and (= (evt-type (|box!kcache.event| e)) (|kcache.event.eventType| e))
+                                             (= (evt-res (|box!kcache.event| e)) (|kcache.event.resource| e)))
+                                        :pattern ((|box!kcache.event| e)))))
+@*/
+
+/*@ iface kcache.Event.Type
+  theory obj
+  ensures (= result (evt-type $recv))
+@*/
+/*@ iface kcache.Event.Resource
+  theory obj
+  ensures (= result (evt-res $recv))
+@*/
+
+/*@ func kcache.NewEvent
+  props C02
+  theory events
+  ensures (and (not (= result vnil)) (= (evt-type result) {et}) (= (evt-res result) {resource}))
+@*/
+/*@ func (kcache.event).Type
+  props C02
+  theory events
+  implements kcache.Event.Type
+@*/
+/*@ func (kcache.event).Resource
+  props C02
+  theory events
+  implements kcache.Event.Resource
+@*/
+
+/*@ func (*kcache._cache).createKey
+  props C01
+  theory cache
+  requires (not (= {obj} vnil))
+  ensures (and (= result0 (keyOf {obj})) (= result1 vnil))
+@*/
+
+/*@ func (*kcache._cache).createEntry
+  props C01
+  theory cache
+  requires (not (= {obj} vnil))
+  ensures (= (= result1 vnil) (isnum (obj-rv {obj})))
+  ensures (=> (= result1 vnil) (= result0 (entryOf {obj})))
+@*/
+
+/*@ func (*kcache._cache).doUpdate
+  props C01 C02
+  theory cache
+  requires [valid-c] (and (not (= {c} vnil)) (not (= {c.items} vnil)) (not (= {c.filter} vnil)) (not (= {c.log} vnil)))
+  requires [evt] (and (not (= {evt} vnil)) (not (= (evt-res {evt}) vnil)))
+  requires [wf] (WFitems {dom(c.items)} {val(c.items)})
+  modifies c.items[]
+  ensures [wf] (WFitems {dom(c.items)} {val(c.items)})
+  ensures [accepted] (=> (old (AllAccepted {c.filter} {dom(c.items)} {val(c.items)})) (AllAccepted {c.filter} {dom(c.items)} {val(c.items)}))
+  ensures [frame-other-keys] (forall ((k Key)) (=> (not (= k (keyOf (evt-res {evt}))))
+             (and (= (select {dom(c.items)} k) (select (old {dom(c.items)}) k))
+                  (= (select {val(c.items)} k) (select (old {val(c.items)}) k)))))
+  ensures [case-table] (let ((k (keyOf (evt-res {evt}))))
+             (and (= (select {dom(c.items)} k) (refUpdDom (select (old {dom(c.items)}) k) (select (old {val(c.items)}) k) {c.filter} {evt}))
+                  (=> (select {dom(c.items)} k)
+                      (= (select {val(c.items)} k) (refUpdVal (select (old {dom(c.items)}) k) (select (old {val(c.items)}) k) {c.filter} {evt})))))
+  ensures [never-regress] (forall ((k Key)) (=> (and (select (old {dom(c.items)}) k) (select {dom(c.items)} k))
+             (and (>= (ever (select {val(c.items)} k)) (ever (select (old {val(c.items)}) k)))
+                  (=> (not (= (select {val(c.items)} k) (select (old {val(c.items)}) k)))
+                      (> (ever (select {val(c.items)} k)) (ever (select (old {val(c.items)}) k)))))))
+  ensures [at-most-one-event] (<= (slen result) 1)
+  ensures [no-event-iff-unchanged] (= (= (slen result) 0)
+             (sameView {dom(c.items)} {val(c.items)} (old {dom(c.items)}) (old {val(c.items)})))
+  ensures [event-is-exact-delta] (=> (= (slen result) 1)
+             (let ((e (select (sarr result) 0)))
+               (and (evWF (old {dom(c.items)}) (old {val(c.items)}) e)
+                    (sameView {dom(c.items)} {val(c.items)} (evApplyD (old {dom(c.items)}) e) (evApplyV (old {val(c.items)}) e)))))
+  ensures [events-carry-objects] (forall ((i Int)) (=> (and (<= 0 i) (< i (slen result)))
+             (and (not (= (select (sarr result) i) vnil)) (not (= (evt-res (select (sarr result) i)) vnil)))))
+@*/
+
+/*@ theory sync
+;; theory cache
+; list element j is usable: object present with a numeric resource version
+(define-fun wfAt ((l (Slice V)) (j Int)) Bool
+  (and (not (= (select (sarr l) j) vnil)) (isnum (obj-rv (select (sarr l) j)))))
+(define-fun keyAt ((l (Slice V)) (j Int)) Key (keyOf (select (sarr l) j)))
+; key k is listed (by a usable element) among the first i elements
+(define-fun listedBefore ((l (Slice V)) (i Int) (k Key)) Bool
+  (exists ((j Int)) (and (<= 0 j) (< j i) (wfAt l j) (= (keyAt l j) k))))
+; key k occurs at most once among the usable elements of the whole list
+(define-fun uniq ((l (Slice V)) (k Key)) Bool
+  (forall ((j1 Int) (j2 Int)) (=> (and (<= 0 j1) (< j1 (slen l)) (<= 0 j2) (< j2 (slen l))
+                                      (wfAt l j1) (wfAt l j2) (= (keyAt l j1) k) (= (keyAt l j2) k)) (= j1 j2))))
+; C01 reference semantics of synchronising ONE listed object o against the entry (p, e) cached for
+; its key under filter f (written from the property statement):
+;   new key              -> present iff accepted
+;   strictly newer       -> replaced iff accepted, otherwise dropped
+;   not newer            -> the cached entry stays iff it is (still) accepted
+(define-fun stepDom ((p Bool) (e Entry) (f V) (o V)) Bool
+  (ite (not p) (accept f o) (ite (> (atoi (obj-rv o)) (ever e)) (accept f o) (accept f (eobj e)))))
+(define-fun stepVal ((p Bool) (e Entry) (f V) (o V)) Entry
+  (ite (and (accept f o) (or (not p) (> (atoi (obj-rv o)) (ever e)))) (entryOf o) e))
+; during the scan the stale entry is still in items (it is removed by the second loop)
+(define-fun stepInItems ((p Bool) (e Entry) (f V) (o V)) Bool (or p (accept f o)))
+(define-fun neverRegress ((d0 (Array Key Bool)) (v0 (Array Key Entry)) (d (Array Key Bool)) (v (Array Key Entry))) Bool
+  (forall ((k Key)) (=> (and (select d0 k) (select d k))
+      (and (>= (ever (select v k)) (ever (select v0 k)))
+           (=> (not (= (select v k) (select v0 k))) (> (ever (select v k)) (ever (select v0 k))))))))
+@*/
+
+/*@ func (*kcache._cache).doSync
+  props C01 C02
+  theory sync
+  requires [valid-c] (and (not (= {c} vnil)) (not (= {c.items} vnil)) (not (= {c.filter} vnil)) (not (= {c.log} vnil)))
+  requires [list-nonnil] (forall ((j Int)) (=> (and (<= 0 j) (< j (slen {list}))) (not (= (select (sarr {list}) j) vnil))))
+  requires [wf] (WFitems {dom(c.items)} {val(c.items)})
+  modifies c.items[]
+  ghost mirrorD : (Array Key Bool) := {dom(c.items)}
+  ghost mirrorV : (Array Key Entry) := {val(c.items)}
+  ghost D1 : (Array Key Bool) := {dom(c.items)}
+  ghost V1 : (Array Key Entry) := {val(c.items)}
+  ghost S1 : (Array Key Bool) := {dom(c.items)}
+  at append(events) assert [event-well-formed] (and (not (= $elem vnil)) (not (= (evt-res $elem) vnil)) (evWF mirrorD mirrorV $elem))
+  at append(events) set mirrorV := (evApplyV mirrorV $elem)
+  at append(events) set mirrorD := (evApplyD mirrorD $elem)
+  at range set D1 := {dom(c.items)}
+  at range set V1 := {val(c.items)}
+  at range set S1 := {dom(set)}
+
+  loop 1 inv [range] (and (<= 0 (+ {rangeindex} 1)) (<= (+ {rangeindex} 1) (slen {list})))
+  loop 1 inv [set-fresh] (and (not (= {set} vnil)) (not (= {set} {c.items})))
+  loop 1 inv [wfitems] (WFitems {dom(c.items)} {val(c.items)})
+  loop 1 inv [set-sub-accepted] (forall ((k Key)) (=> (select {dom(set)} k)
+        (and (select {dom(c.items)} k) (accept {c.filter} (eobj (select {val(c.items)} k))))))
+  loop 1 inv [grow] (forall ((k Key)) (=> (select (old {dom(c.items)}) k) (select {dom(c.items)} k)))
+  loop 1 inv [never-regress] (neverRegress (old {dom(c.items)}) (old {val(c.items)}) {dom(c.items)} {val(c.items)})
+  loop 1 inv [new-accepted] (forall ((k Key)) (=> (and (select {dom(c.items)} k)
+        (or (not (select (old {dom(c.items)}) k)) (not (= (select {val(c.items)} k) (select (old {val(c.items)}) k)))))
+        (accept {c.filter} (eobj (select {val(c.items)} k)))))
+  loop 1 inv [listed] (forall ((k Key)) (=> (select {dom(set)} k) (listedBefore {list} (+ {rangeindex} 1) k)))
+  loop 1 inv [exact] (forall ((k Key)) (=> (uniq {list} k) (and
+        (=> (not (listedBefore {list} (+ {rangeindex} 1) k))
+            (and (= (select {dom(c.items)} k) (select (old {dom(c.items)}) k))
+                 (= (select {val(c.items)} k) (select (old {val(c.items)}) k))
+                 (not (select {dom(set)} k))))
+        (forall ((j Int)) (=> (and (<= 0 j) (< j (+ {rangeindex} 1)) (wfAt {list} j) (= (keyAt {list} j) k))
+            (and (= (select {dom(set)} k) (stepDom (select (old {dom(c.items)}) k) (select (old {val(c.items)}) k) {c.filter} (select (sarr {list}) j)))
+                 (= (select {dom(c.items)} k) (stepInItems (select (old {dom(c.items)}) k) (select (old {val(c.items)}) k) {c.filter} (select (sarr {list}) j)))
+                 (=> (select {dom(c.items)} k)
+                     (= (select {val(c.items)} k) (stepVal (select (old {dom(c.items)}) k) (select (old {val(c.items)}) k) {c.filter} (select (sarr {list}) j))))))))))
+  loop 1 inv [mirror] (and (= mirrorD {dom(c.items)}) (forall ((k Key)) (=> (select {dom(c.items)} k) (= (select mirrorV k) (select {val(c.items)} k)))))
+
+  loop 2 inv [visited-sub] (forall ((k Key)) (=> (select $visited k) (select D1 k)))
+  loop 2 inv [dom] (forall ((k Key)) (= (select {dom(c.items)} k) (and (select D1 k) (or (not (select $visited k)) (select S1 k)))))
+  loop 2 inv [val] (forall ((k Key)) (=> (select {dom(c.items)} k) (= (select {val(c.items)} k) (select V1 k))))
+  loop 2 inv [set-frame] (= {dom(set)} S1)
+  loop 2 inv [mirror] (and (= mirrorD {dom(c.items)}) (forall ((k Key)) (=> (select {dom(c.items)} k) (= (select mirrorV k) (select {val(c.items)} k)))))
+
+  ensures [wf] (WFitems {dom(c.items)} {val(c.items)})
+  ensures [all-accepted] (AllAccepted {c.filter} {dom(c.items)} {val(c.items)})
+  ensures [missing-from-list-absent] (forall ((k Key)) (=> (select {dom(c.items)} k) (listedBefore {list} (slen {list}) k)))
+  ensures [never-regress] (neverRegress (old {dom(c.items)}) (old {val(c.items)}) {dom(c.items)} {val(c.items)})
+  ensures [exact-for-keys-listed-once] (forall ((k Key)) (=> (uniq {list} k) (and
+        (=> (not (listedBefore {list} (slen {list}) k)) (not (select {dom(c.items)} k)))
+        (forall ((j Int)) (=> (and (<= 0 j) (< j (slen {list})) (wfAt {list} j) (= (keyAt {list} j) k))
+            (and (= (select {dom(c.items)} k) (stepDom (select (old {dom(c.items)}) k) (select (old {val(c.items)}) k) {c.filter} (select (sarr {list}) j)))
+                 (=> (select {dom(c.items)} k)
+                     (= (select {val(c.items)} k) (stepVal (select (old {dom(c.items)}) k) (select (old {val(c.items)}) k) {c.filter} (select (sarr {list}) j))))))))))
+  exit [events-replay-to-new-content] (and (= mirrorD {dom(c.items)}) (forall ((k Key)) (=> (select {dom(c.items)} k) (= (select mirrorV k) (select {val(c.items)} k)))))
+  exit [returns-events] (= result {events})
+@*/
